@@ -21,12 +21,15 @@ RULE = ("cell = (user spelling in {name, numeric string, int, absent}, group spe
         "absent}, initgroups on/off, worker class, bind tcp/unix, generation history initial -> kill -9 respawn -> HUP -> TTIN -> "
         "USR2); distinct = cell tuple; every cell with a user or group is non-trivial")
 
-USERS = [("www-data", 33), ("33", 33), (33, 33), (None, None), ("nobody", 65534)]
+USERS = [("www-data", 33), ("33", 33), (33, 33), (None, None), ("nobody", 65534), ("54321", 54321), (54321, 54321)]   # 54321: no account
 GROUPS = [("nogroup", 65534), ("65534", 65534), ("www-data", 33), (None, None), (33, 33)]
 
 
 def expected_groups(uid, gid):
-    name = pwd.getpwuid(uid).pw_name
+    try:
+        name = pwd.getpwuid(uid).pw_name
+    except KeyError:
+        return None         # a uid without an account has no supplementary groups to look up: not judged
     gs = set(g.gr_gid for g in grp.getgrall() if name in g.gr_mem)
     gs.add(gid)
     return sorted(gs)
@@ -45,7 +48,9 @@ def check_worker(run, e4, pid, want_uid, want_gid, initgroups, gen, v, master_gr
         v.append((mech, "worker %d (%s): Gid %s, configured %d (initgroups=%s)" % (pid, gen, ids["Gid"], want_gid, initgroups)))
     if initgroups and want_uid != 0 and master_groups:      # master_groups: True when both user and group are configured
         want = expected_groups(want_uid, want_gid)
-        if sorted(ids["Groups"]) != want:
+        if want is None:
+            run.count("uid_without_account_checks")
+        elif sorted(ids["Groups"]) != want:
             v.append(("worker-supplementary-groups-wrong/" + gen, "worker %d: Groups %s, account database gives %s" % (
                 pid, sorted(ids["Groups"]), want)))
         else:
@@ -84,6 +89,7 @@ def run_scenario(run, e4, sc):
     both = user is not None and group is not None
     want_uid = uid if uid is not None else os.geteuid()
     want_gid = gid if gid is not None else os.getegid()
+    sock_gid = want_gid         # the listening socket is created (and chowned) once, when the master starts
     srv = e4.Server("c20", worker_class=wc, workers=2, settings=settings, bind=sc["bind"],
                     env={"GUNICORN_CMD_ARGS": " ".join(opts)} if (source == "env" and opts) else None,
                     argv_extra=opts if source == "cli" else None)
@@ -146,6 +152,13 @@ def run_scenario(run, e4, sc):
         srv.wait_workers(2, 10)
         check_all("respawn")
         # generation: HUP
+        if sc.get("reload_group"):
+            # the reload changes the group (same user): the new generation runs with the new one and, with initgroups, with
+            # the supplementary groups that go with it
+            new_group, new_gid = sc["reload_group"]
+            srv.write_conf(group=new_group)
+            want_gid = new_gid
+            run.count("reloads_changing_the_group")
         srv.signal(signal.SIGHUP)
         t0 = time.monotonic()
         while time.monotonic() - t0 < 15:
@@ -167,6 +180,50 @@ def run_scenario(run, e4, sc):
                       "(heartbeat file not writable after the privilege drop?)"))
         else:
             run.count("heartbeat_checks")
+        if sc.get("bad_reload"):
+            # a reload that finds a broken configuration file (an unrelated setting with a value its validator refuses, above
+            # everything else): whatever the server does about it, nothing it starts afterwards may run with other ids
+            with open(srv.conf_path) as f:
+                conf = f.read()
+            with open(srv.conf_path + ".tmp", "w") as f:
+                f.write("keepalive = 'not-a-number'\n" + conf)
+            os.rename(srv.conf_path + ".tmp", srv.conf_path)
+            srv.signal(signal.SIGHUP)
+            t0 = time.monotonic()
+            first_seen = {}
+
+            def check_settled():
+                # the server hooks that report a worker's start may be gone with the configuration: a worker that has been
+                # there for 1.5 s has long passed the point where it takes on its identity
+                for p in srv.worker_pids():
+                    first_seen.setdefault(p, time.monotonic())
+                    if p not in seen and time.monotonic() - first_seen[p] >= 1.5:
+                        seen.add(p)
+                        check_worker(run, e4, p, want_uid, want_gid, sc["initgroups"], "after-refused-reload", v, both)
+
+            while time.monotonic() - t0 < 6:
+                if not e4.alive(master):
+                    break
+                check_all("after-refused-reload")
+                check_settled()
+                time.sleep(0.1)
+            run.count("refused_reload_histories")
+            info["master_survived_bad_reload"] = e4.alive(master)
+            if e4.alive(master):
+                # kill a worker: what is spawned now?
+                ws = srv.worker_pids()
+                if ws:
+                    try:
+                        os.kill(ws[0], signal.SIGKILL)
+                    except OSError:
+                        pass
+                    t1 = time.monotonic()
+                    while time.monotonic() - t1 < 4.0:
+                        check_all("after-refused-reload")
+                        check_settled()
+                        time.sleep(0.1)
+            info["workers_checked"] = len(seen)
+            return v, None, info
         # generation: USR2
         srv.signal(signal.SIGUSR2)
         new = None
@@ -196,9 +253,9 @@ def run_scenario(run, e4, sc):
                 run.count("master_identity_checks")
         if sc["bind"] == "unix":
             st = os.stat(srv.sockpath)
-            if (st.st_uid, st.st_gid) != (want_uid, want_gid):
+            if (st.st_uid, st.st_gid) != (want_uid, sock_gid):
                 v.append(("unix-socket-owner-wrong", "socket file owned by %d:%d, configured %d:%d" % (
-                    st.st_uid, st.st_gid, want_uid, want_gid)))
+                    st.st_uid, st.st_gid, want_uid, sock_gid)))
             else:
                 run.count("unix_socket_owner_checks")
         r = e4.request(srv.addr, "/pid", timeout=5)
@@ -230,6 +287,16 @@ def scenarios(tier, seed):
     for i, (u, g, ig) in enumerate(chosen):
         out.append({"user": list(u), "group": list(g), "initgroups": ig, "class": classes[i % 4],
                     "bind": "unix" if i % 2 else "tcp", "idx": i, "source": ["file", "env", "cli", "file"][(i + i // 4) % 4]})
+    # histories in which the configuration changes under a running master
+    n0 = len(out)
+    out.append({"user": ["www-data", 33], "group": ["nogroup", 65534], "initgroups": True, "class": classes[seed % 4], "bind": "tcp",
+                "idx": n0, "source": "file", "reload_group": rng.choice([["daemon", 1], ["www-data", 33], ["1", 1]])})
+    out.append({"user": ["nobody", 65534], "group": ["www-data", 33], "initgroups": rng.random() < 0.5, "class": classes[(seed + 1) % 4],
+                "bind": "unix", "idx": n0 + 1, "source": "file", "reload_group": ["nogroup", 65534]})
+    out.append({"user": ["www-data", 33], "group": ["nogroup", 65534], "initgroups": rng.random() < 0.5, "class": classes[(seed + 2) % 4],
+                "bind": "tcp", "idx": n0 + 2, "source": "file", "bad_reload": True})
+    out.append({"user": [54321, 54321], "group": ["nogroup", 65534], "initgroups": True, "class": classes[(seed + 3) % 4],
+                "bind": "unix", "idx": n0 + 3, "source": rng.choice(["file", "cli"])})
     return out
 
 
@@ -273,7 +340,8 @@ def main(tier, seed):
     run.require("scenarios", "worker_id_checks", "generation/initial", "generation/respawn", "generation/reload", "generation/ttin",
                 "generation/upgrade", "application_id_checks", "initgroups_group_checks", "heartbeat_checks",
                 "master_identity_checks", "unix_socket_owner_checks", "class/sync", "class/gthread", "class/gevent",
-                "class/eventlet", "source/file", "source/env", "source/cli")
+                "class/eventlet", "source/file", "source/env", "source/cli", "reloads_changing_the_group", "refused_reload_histories",
+                "uid_without_account_checks")
     shards = [{"scenario": sc, "seed": seed, "tier": tier} for sc in scenarios(tier, seed)]
     run.assumptions = [
         "without initgroups the supplementary groups are not judged (the statement specifies them only with initgroups)",
